@@ -208,10 +208,11 @@ def main(argv=None):
             unknown.append({"kind": kind, "mech": mech, "detail": "witness capped", "case": None})
 
     inconclusive = list(failures) + m["errors"]
-    if m["tripwire"]:
-        handler = getattr(mod, "tripwire_is_violation", None)
-        if handler is None:
-            inconclusive.append("tripwire events in harness: %s" % m["tripwire"][:3])
+    expected = set(getattr(mod, "TRIPWIRE_EXPECTED", ()))
+    unexpected = [e for e in m["tripwire"] if e["event"] not in expected]
+    m["counters"]["tripwire_events_expected"] = len(m["tripwire"]) - len(unexpected)
+    if unexpected:
+        inconclusive.append("unexpected tripwire events (network/file writes) in harness: %s" % unexpected[:3])
     floors = mod.floors(args.tier) if hasattr(mod, "floors") else {}
     missed = []
     for k, want in sorted(floors.items()):
@@ -242,6 +243,9 @@ def main(argv=None):
     if interesting:
         print("  observed: " + ", ".join("%s=%d" % (k, m["counters"].get(k, 0)) for k in interesting))
 
+    esc = ["%s=%d" % (k, n) for k, n in sorted(m["counters"].items()) if k.startswith("escaped:")]
+    if esc:
+        print("  escaped exceptions: " + ", ".join(esc))
     for key, v in sorted(known_hit.items()):
         e = known[key]
         n = sum(c for (k, mm), c in m["buckets"].items() if mm == key)
